@@ -1,12 +1,16 @@
 /-
   C13 — property theorems (WrapCache part).  Every `theorem` here is one audited proof obligation.
   Statements quantify over ALL admissible histories (induction over the history, no length bound).
-  "Admissible" = every operation is tracked (not a Go-side re-allocation, which goja cannot see) and in bounds
-  (not a sort swap beyond the current length / a store beyond the end of a Go array) — the three excluded
-  situations are exactly the ones for which the `_witness` theorems below show that the current code fails.
+  "Admissible" = every operation is tracked (not a Go-side re-allocation, which goja cannot see: after it the cached
+  element wrappers point into the old backing array — `go_realloc_breaks_live_view_witness`, still a known finding).
+  Sort swaps beyond the current length (comparator shrank the slice, fix 60ad8ae) and stores beyond the end of a Go
+  array (fix 1c31366) are defined behaviour now and inside the admissible region; the `_prefix_witness` lemmas keep
+  the old mechanism's failure as a regression record.
 -/
 import GojaModel.C13.Lemmas
 import GojaModel.C13.BridgeLemmas
+import GojaModel.C13.ExportLemmas
+import GojaModel.C13.MapModel
 
 namespace GojaModel.C13
 
@@ -15,10 +19,28 @@ theorem wrapcache_inv_all_histories (fixed : Bool) (n c : Nat) (f : Nat → Val)
     (ha : Admissible (St.init fixed n c f) h) : Inv ((St.init fixed n c f).run h) :=
   inv_run (inv_init fixed n c f) h ha
 
-/-- No script operation on a wrapper panics the host (within the admissible histories). -/
-theorem script_ops_no_panic (fixed : Bool) (n c : Nat) (f : Nat → Val) (h : List Op)
-    (ha : Admissible (St.init fixed n c f) h) : ((St.init fixed n c f).run h).panic = false :=
-  (wrapcache_inv_all_histories fixed n c f h ha).noPanic
+/-- No operation on a wrapper reaches a reflect index-out-of-range (host panic) — for ALL histories, including
+    sort swaps at arbitrary indices, stores beyond the end of a Go array and Go-side re-allocations. -/
+theorem script_ops_no_panic (fixed : Bool) (n c : Nat) (f : Nat → Val) (h : List Op) :
+    ((St.init fixed n c f).run h).panic = false := by
+  rw [run_panic]; rfl
+
+/-- Fix 60ad8ae: a sort swap that no longer addresses elements (the comparator shrank the slice) is ignored;
+    fix 1c31366: a store beyond the end of a Go array fails without touching anything. -/
+theorem out_of_range_swap_and_array_store_are_noops (s : St) (i j : Nat) (x : Val) (ok : Bool) :
+    (s.len ≤ i ∨ s.len ≤ j → s.swap i j = s) ∧
+    (s.fixed = true → s.len ≤ i → s.putIdx i x ok = s) := by
+  refine ⟨fun h => by simp [St.swap, h], fun hf hi => by simp [St.putIdx, hf, St.putIdxArr, hi]⟩
+
+/-- In-place sort: every swap (at any indices, after any admissible history) moves each wrapper together with its
+    element — no wrapper's denotation changes, the invariant is kept. -/
+theorem sort_swap_keeps_wrappers (fixed : Bool) (n c : Nat) (f : Nat → Val) (h : List Op)
+    (ha : Admissible (St.init fixed n c f) h) (i j w : Nat) :
+    let s := (St.init fixed n c f).run h
+    (s.swap i j).readW w = s.readW w ∧ Inv (s.swap i j) := by
+  intro s
+  have I : Inv s := wrapcache_inv_all_histories fixed n c f h ha
+  exact ⟨swap_preserves_readings I i j w, inv_swap I i j⟩
 
 /-- LIVE VIEW.  After any admissible history, if `w` is the wrapper script obtains for `a[i]`
     (it is the cached one), then (1) reading through `w` gives the current Go slot value, (2) a write through
@@ -114,10 +136,10 @@ theorem wrapper_detach_snapshot {s : St} (I : Inv s) {w : Nat} {v : Val} (hw : s
     intro x
     simp [St.run, St.step, hlt, St.writeW, hw]
   | cons op ops ih =>
-    obtain ⟨ht, hb, hr⟩ := ha
+    obtain ⟨ht, hr⟩ := ha
     have notCached : ∀ i, s.cacheGet i ≠ some w := by
       intro i hc; have := I.cached_attached i w hc; rw [hw] at this; cases this
-    have J := inv_step I op ht hb
+    have J := inv_step I op ht
     have hlt' : w < (s.step op).nw := Nat.lt_of_lt_of_le hlt (step_nw_mono s op)
     by_cases hop : ∃ x, op = .wwrite w x
     · obtain ⟨x, rfl⟩ := hop
@@ -137,19 +159,28 @@ theorem wrapper_detach_snapshot {s : St} (I : Inv s) {w : Nat} {v : Val} (hw : s
       rw [hl]
       simpa [St.run] using this
 
-/-! ### the three situations the current code gets wrong (concrete witnesses; see design/C13.md) -/
+/-! ### regression records of the repaired mechanism, and the one situation the current code still gets wrong -/
 
-/-- Array.prototype.sort on a Go-slice wrapper sorts in place; if the comparator shrinks the slice, the next
-    Swap indexes out of range and the reflect panic escapes to the host
-    (`a := []S{..}; a.sort((x,y)=>{a.length=0; return 0})`). -/
-theorem sort_shrinking_comparator_panics_witness :
-    ((St.init false 2 2 (fun i => Int.ofNat i)).run [.setLen 0, .swap 0 1]).panic = true := by
+/-- The swap of the mechanism before fix 60ad8ae (no bounds guard). -/
+def St.swapPre (s : St) (i j : Nat) : St :=
+  if s.len ≤ i ∨ s.len ≤ j then { s with panic := true } else s.swap i j
+
+/-- _putIdx of the mechanism before fix 1c31366 (reflect.Index after the detach, no bounds test). -/
+def St.putIdxArrPre (s : St) (i : Nat) (x : Val) (ok : Bool) : St :=
+  if s.len ≤ i then { (s.detachOpt (s.cacheGet i)) with panic := true } else s.putIdxArr i x ok
+
+/-- Before 60ad8ae: sorting in place with a comparator that shrinks the slice indexed out of range
+    (`a := []S{..}; a.sort((x,y)=>{a.length=0; return -1})`). -/
+theorem sort_shrinking_comparator_prefix_witness :
+    (((St.init false 2 2 (fun i => Int.ofNat i)).run [.setLen 0]).swapPre 0 1).panic = true ∧
+    (((St.init false 2 2 (fun i => Int.ofNat i)).run [.setLen 0]).swap 0 1).panic = false := by
   decide
 
-/-- Storing beyond the end of a wrapped Go array (`a := [2]S{}; a[5] = x`, also defineProperty / push) reaches
+/-- Before 1c31366: storing beyond the end of a wrapped Go array (`a := [2]S{}; a[5] = x`) reached
     reflect.Value.Index out of range. -/
-theorem goarray_store_out_of_range_panics_witness :
-    ((St.init true 2 2 (fun i => Int.ofNat i)).run [.set 5 1]).panic = true := by
+theorem goarray_store_out_of_range_prefix_witness :
+    ((St.init true 2 2 (fun i => Int.ofNat i)).putIdxArrPre 5 1 true).panic = true ∧
+    ((St.init true 2 2 (fun i => Int.ofNat i)).putIdxArr 5 1 true).panic = false := by
   decide
 
 /-- After a Go-side re-allocation (append beyond capacity) a previously handed out element wrapper is still
@@ -168,11 +199,14 @@ theorem export_toValue_int_exact (k : IntKind) (v : Int) (_hr : k.InRange v) (hs
     exportNum (toValueInt k v) = .i64 v := by
   rw [toValueInt_safe hs]; rfl
 
-/-- Numeric round trip, the exact exception: beyond ±2^53 the value comes back as float64(v)
-    (documented: Export of a number is int64 for integers in JS's sense and float64 otherwise). -/
-theorem export_toValue_int_lossy (k : IntKind) (v : Int) (hs : ¬ Safe v) (h64 : v ≤ 9223372036854775807) :
-    exportNum (toValueInt k v) = .f64 (.intval (round53 v)) := by
-  rw [toValueInt_unsafe hs h64]; rfl
+/-- Numeric round trip, the exact exception: beyond ±2^53 every integer kind (signed, unsigned, also uint64 beyond
+    MaxInt64) comes back as the nearest double float64(v) — as int64 again in the one case where that double is
+    ±2^53 (documented: Export of a number is int64 for integer Numbers and float64 otherwise). -/
+theorem export_toValue_int_lossy (k : IntKind) (v : Int) (hs : ¬ Safe v) :
+    exportNum (toValueInt k v) =
+      (if Safe (round53 v) then GoNum.i64 (round53 v) else GoNum.f64 (.intval (round53 v))) := by
+  rw [toValueInt_unsafe hs]
+  by_cases h : Safe (round53 v) <;> simp [floatToValue, exportNum, h]
 
 /-- ExportTo into the value's own integer kind gives the value back (within ±2^53), for all kinds and values. -/
 theorem exportTo_own_kind_int (k : IntKind) (v : Int) (hr : k.InRange v) (hs : Safe v) :
@@ -227,7 +261,142 @@ theorem exception_is_exact (sh : Shape) (h : Exception sh = true) : roundTrip sh
   | rOther d n => cases n <;> cases d <;> simp_all [Exception, roundTrip, toValueCase]
   | _ => simp_all [Exception, roundTrip, toValueCase]
 
+/-! ### map wrappers: live entries, element wrappers are copies -/
+
+theorem mstep_m_congr {s t : MSt} (h : s.m = t.m) (op : MOp) : (s.step op).m = (t.step op).m := by
+  cases op with
+  | get k =>
+    simp only [MSt.step, MSt.getKey]
+    rw [h]; cases t.m k <;> simp [h]
+  | wwrite w x => simp only [MSt.step]; split <;> split <;> simp [h]
+  | _ => simp [MSt.step, h]
+
+/-- MAP LIVE VIEW.  A script write to an entry is what Go sees, a Go write is what the next script read returns
+    (the new wrapper holds the current element), a delete from either side removes the entry. -/
+theorem map_entries_live (s : MSt) (k : Nat) (x : Val) :
+    (s.step (.set k x)).m k = some x ∧
+    (∃ w, ((s.step (.goSet k x)).getKey k).2 = some w ∧ ((s.step (.goSet k x)).getKey k).1.ws w = x) ∧
+    (s.step (.del k)).m k = none ∧ (s.step (.goDel k)).m k = none := by
+  refine ⟨by simp [MSt.step, updN], ⟨s.nw, ?_, ?_⟩, by simp [MSt.step, updN], by simp [MSt.step, updN]⟩ <;>
+    simp [MSt.step, MSt.getKey, updN]
+
+/-- MAP ELEMENT WRAPPERS ARE COPIES (documented caveat 3 of ToValue: non-addressable values get copied): for ALL
+    histories, the Go map after the history equals the Go map after the same history with every write through an
+    element wrapper removed — such writes never reach the map. -/
+theorem map_wrapper_writes_never_reach_map (s : MSt) (h : List MOp) :
+    (s.run h).m = (s.run (h.filter (fun op => !op.isWrapperWrite))).m := by
+  suffices H : ∀ (h : List MOp) (s t : MSt), s.m = t.m →
+      (s.run h).m = (t.run (h.filter (fun op => !op.isWrapperWrite))).m from H h s s rfl
+  intro h
+  induction h with
+  | nil => intro s t e; exact e
+  | cons op ops ih =>
+    intro s t e
+    cases op with
+    | wwrite w x =>
+      simp only [List.filter, MOp.isWrapperWrite, Bool.not_true, MSt.run]
+      apply ih
+      rw [← e]; simp only [MSt.step]; split <;> rfl
+    | get k => simp only [List.filter, MOp.isWrapperWrite, Bool.not_false, MSt.run]; exact ih _ _ (mstep_m_congr e _)
+    | set k x => simp only [List.filter, MOp.isWrapperWrite, Bool.not_false, MSt.run]; exact ih _ _ (mstep_m_congr e _)
+    | del k => simp only [List.filter, MOp.isWrapperWrite, Bool.not_false, MSt.run]; exact ih _ _ (mstep_m_congr e _)
+    | goSet k x => simp only [List.filter, MOp.isWrapperWrite, Bool.not_false, MSt.run]; exact ih _ _ (mstep_m_congr e _)
+    | goDel k => simp only [List.filter, MOp.isWrapperWrite, Bool.not_false, MSt.run]; exact ih _ _ (mstep_m_congr e _)
+
+/-- EXPORTTO OWN TYPE.  ExportTo(ToValue(g), &x) with x of g's own Go type yields a value deep-equal to g, for every
+    shape (scalar, composite, pointer chains, typed nils, maps, slices, arrays, structs) outside the explicit
+    `ExceptionTo` predicate (funcs — not comparable —, goja Values, nil *big.Int, a nil pointer below an outer
+    pointer).  For the numeric kinds "deep-equal" is the value statement of `exportTo_own_kind_int/_f64`. -/
+theorem exportTo_own_type_deepEq (sh : Shape) (h : ExceptionTo sh = false) : relTo sh = .deepEqual := by
+  cases sh with
+  | intKind k => cases k <;> simp_all [ExceptionTo, relTo, toReflectOwn, toValueCase]
+  | mapStrIface n => cases n <;> simp_all [ExceptionTo, relTo, toReflectOwn, toValueCase]
+  | ptrSliceIface n => cases n <;> simp_all [ExceptionTo, relTo, toReflectOwn, toValueCase]
+  | objectPtr n => cases n <;> simp_all [ExceptionTo, relTo, toReflectOwn, toValueCase]
+  | bigInt n => cases n <;> simp_all [ExceptionTo, relTo, toReflectOwn, toValueCase]
+  | rMap d n k m =>
+    rcases d with _ | _ | d <;> cases n <;> cases k <;> cases m <;>
+      simp_all [ExceptionTo, relTo, toReflectOwn, toValueCase]
+  | rArray d n => rcases d with _ | _ | d <;> cases n <;> simp_all [ExceptionTo, relTo, toReflectOwn, toValueCase]
+  | rSlice d n => rcases d with _ | _ | d <;> cases n <;> simp_all [ExceptionTo, relTo, toReflectOwn, toValueCase]
+  | rFunc d n => simp_all [ExceptionTo]
+  | rOther d n => rcases d with _ | _ | d <;> cases n <;> simp_all [ExceptionTo, relTo, toReflectOwn, toValueCase]
+  | _ => simp_all [ExceptionTo, relTo, toReflectOwn, toValueCase]
+
+/-- …and the exceptions are exact: no shape in `ExceptionTo` comes back deep-equal. -/
+theorem exceptionTo_is_exact (sh : Shape) (h : ExceptionTo sh = true) : relTo sh ≠ .deepEqual := by
+  cases sh with
+  | bigInt n => cases n <;> simp_all [ExceptionTo, relTo, toReflectOwn, toValueCase]
+  | rMap d n k m =>
+    rcases d with _ | _ | d <;> cases n <;> cases k <;> cases m <;>
+      simp_all [ExceptionTo, relTo, toReflectOwn, toValueCase]
+  | rArray d n => rcases d with _ | _ | d <;> cases n <;> simp_all [ExceptionTo, relTo, toReflectOwn, toValueCase]
+  | rSlice d n => rcases d with _ | _ | d <;> cases n <;> simp_all [ExceptionTo, relTo, toReflectOwn, toValueCase]
+  | rFunc d n => rcases d with _ | d <;> cases n <;> simp_all [ExceptionTo, relTo, toReflectOwn, toValueCase]
+  | rOther d n => rcases d with _ | _ | d <;> cases n <;> simp_all [ExceptionTo, relTo, toReflectOwn, toValueCase]
+  | _ => simp_all [ExceptionTo, relTo, toReflectOwn, toValueCase]
+
+/-! ### Export of a script-built graph: sharing and cycles -/
+
+/-- EXPORT PRESERVES SHARING AND CYCLES.  For every script heap `js` (any shape: shared children, cycles,
+    self-references) and every root, `Object.Export()` (one fresh identity cache per call; enough recursion fuel,
+    i.e. `ok`) produces Go objects such that
+    (1) the cache — script object ↦ Go address — is injective: one Go object per script object, so a child reachable
+        along two paths (or along a cycle) is the SAME Go map/slice, and distinct script objects stay distinct;
+    (2) every exported Go object is the image of the script object cached at its address: same keys in the same
+        order, primitives equal, every reference field pointing at the Go object of the referenced script object
+        (edges preserved ⇒ the exported graph is isomorphic to the reachable script graph);
+    (3) every object that was allocated has been completed (as many finished objects as cache entries);
+    (4) the result is the Go object of the root. -/
+theorem export_preserves_sharing_and_cycles (js : Nat → JFields) (fuel root : Nat)
+    (hok : (exportRoot js fuel root).1.ok = true) :
+    let r := exportRoot js fuel root
+    (∀ a b id : Nat, r.1.cache[a]? = some id → r.1.cache[b]? = some id → a = b) ∧
+    (∀ e ∈ r.1.out, OutGood js r.1.cache e) ∧
+    r.1.out.length = r.1.cache.length ∧
+    Img r.1.cache (.ref root) r.2 := by
+  intro r
+  have hs := expVal_spec js fuel ECtx.empty (.ref root)
+  obtain ⟨hext, himg⟩ := hs
+  obtain ⟨osuf, hout, hgood⟩ := hext.outPre
+  have hnd : r.1.cache.Nodup := hext.nodup (by simp [ECtx.empty])
+  refine ⟨?_, ?_, ?_, himg hok⟩
+  · intro a b id ha hb
+    have hlt : a < r.1.cache.length := by
+      apply Classical.byContradiction
+      intro hn
+      have : r.1.cache[a]? = none := List.getElem?_eq_none (by omega)
+      rw [this] at ha; cases ha
+    exact (List.getElem?_inj hlt hnd).mp (ha.trans hb.symm)
+  · intro e he
+    have : e ∈ osuf := by
+      have h2 : r.1.out = osuf := by
+        have : r.1.out = ECtx.empty.out ++ osuf := hout
+        simpa [ECtx.empty] using this
+      rw [h2] at he; exact he
+    exact hgood hok e this
+  · have : r.1.out.length + ECtx.empty.cache.length = ECtx.empty.out.length + r.1.cache.length := hext.count
+    simpa [ECtx.empty] using this
+
+/-- the cache is monotone during an export (a partial injective map that only grows): exporting a further value with
+    the same ctx keeps every earlier object ↦ address binding. -/
+theorem export_cache_monotone (js : Nat → JFields) (fuel : Nat) (c : ECtx) (v : JVal) (a id : Nat)
+    (h : c.cache[a]? = some id) : (expVal js fuel c v).1.cache[a]? = some id := by
+  obtain ⟨suf, hsuf⟩ := (expVal_spec js fuel c v).1.cachePre
+  have hlt : a < c.cache.length := by
+    apply Classical.byContradiction
+    intro hn
+    have : c.cache[a]? = none := List.getElem?_eq_none (by omega)
+    rw [this] at h; cases h
+  rw [hsuf, List.getElem?_append_left hlt]; exact h
+
 /-! ### non-vacuity (tests on literals, not proofs of the property) -/
+
+/-- a cycle with a shared child: o0 = {k0: o1, k1: o1, k2: o0}, o1 = [7, o0] -/
+example : (exportRoot (fun id => if id = 0 then [(0, .ref 1), (1, .ref 1), (2, .ref 0)] else if id = 1 then [(0, .prim 7), (1, .ref 0)] else []) 5 0)
+    = ({ cache := [0, 1], out := [(1, [(0, .prim 7), (1, .addr 0)]), (0, [(0, .addr 1), (1, .addr 1), (2, .addr 0)])], ok := true }, .addr 0) := by
+  decide
+
 
 example : Admissible (St.init false 3 4 (fun i => Int.ofNat i))
     [.get 0, .get 1, .wwrite 0 9, .set 0 5, .wwrite 0 8, .setLen 6, .swap 1 2, .del 1, .goWrite 2 7, .goAppend 3] := by
